@@ -19,7 +19,7 @@ from . import core
 
 THEOREMS = ["C11_expr", "C11_residual", "C11_total", "C11_total_fixed_table", "C11_total_refuted_ne",
             "C11_loop_range", "C11_three_part_range", "C11_three_part_range_old_reading_refuted",
-            "C11_function_partial", "C11_function_order", "C11_function_if_refuted", "C11_matrix_residual", "C11_square_not_transposed", "C11_example"]
+            "C11_function_partial", "C11_function_order", "C11_function_if_refuted", "C11_function_if_repaired_witness", "C11_matrix_residual", "C11_square_not_transposed", "C11_example"]
 
 GEN_PY = "src/pymoca/backends/casadi/generator.py"
 
@@ -154,8 +154,13 @@ def build_table(ctx):
             "(* regenerated from %s (OP_MAP) and casadi %s *)\n"
             "Definition gen_table : table :=\n  [%s].\n"
             "Definition gen_probe : list (probe_op * (opcode * bool)) :=\n  [%s].\n"
-            % (GEN_PY, res.get("casadi"), ";\n   ".join(rows), ";\n   ".join(prows)))
-    return text, {"OP_MAP": opmap, "hasattr": res["hasattr"], "probes": pinfo, "specials": specials,
+            "(* F: exitIfStatement executes the branches sequentially (fixes/C11_if_statement_sequential)? *)\n"
+            "Definition gen_if_seq : bool := %s.\n"
+            % (GEN_PY, res.get("casadi"), ";\n   ".join(rows), ";\n   ".join(prows),
+               core.cq_bool(res.get("if_probe") == "sequential")))
+    if res.get("if_probe") not in ("sequential", "merged"):
+        raise ShapeError("if-statement probe not recognised: %s" % res.get("if_probe"))
+    return text, {"OP_MAP": opmap, "hasattr": res["hasattr"], "probes": pinfo, "specials": specials, "if_probe": res.get("if_probe"),
                   "ignored_keys": sorted(k for k in opmap if k not in KEYS)}
 
 
@@ -412,6 +417,16 @@ def gen_fun_model(rng, ifdep=False):
     return {"kind": "model", "name": "M", "N": 3, "eqs": eqs, "ieqs": [], "stream": "fun", "decl": "fun", "functions": [f]}
 
 
+R3 = lambda a, s_, b: ["r3", a, s_, b]  # noqa
+# constant three-part slices: negative and non-unit steps, on vectors and on either axis of a matrix
+M22_R3 = [["sl", "C", [R3(3, -2, 1), R3(1, 2, 3)]], ["sl", "C", [R3(2, -1, 1), R3(3, -1, 2)]], ["sl", "E", [R3(2, -1, 1), R3(3, -2, 1)]],
+          ["sl", "E", [":", R3(3, -1, 2)]], ["sl", "C", [["r", 1, 2], R3(3, -2, 1)]], ["sl", "A", [R3(2, -1, 1), ":"]]]
+V3_R3 = [["sl", "v", [R3(3, -1, 1)]], ["sl", "z", [R3(5, -2, 1)]], ["sl", "z", [R3(1, 2, 5)]], ["sl", "z", [R3(4, -1, 2)]],
+         ["sl", "C", [R3(3, -1, 1), 2]], ["sl", "C", [R3(3, -1, 1), 1]], ["sl", "z", [R3(5, -1, 3)]]]
+V3_R3_ROW = [["sl", "C", [2, R3(3, -1, 1)]], ["sl", "E", [1, R3(3, -1, 1)]]]
+V2_R3 = [["sl", "v", [R3(3, -2, 1)]], ["sl", "z", [R3(4, -1, 3)]], ["sl", "z", [R3(5, -3, 1)]], ["sl", "z", [R3(2, 3, 5)]],
+         ["sl", "E", [R3(2, -1, 1), 3]], ["sl", "C", [R3(3, -2, 1), 2]], ["sl", "w", [R3(2, -1, 1)]]]
+V2_R3_ROW = [["sl", "C", [3, R3(3, -2, 1)]], ["sl", "A", [2, R3(2, -1, 1)]]]
 M22 = [["A", "A"], ["A", "B"], ["A", "D"], ["sl", "C", [["r", 1, 2], ["r", 2, 3]]], ["sl", "C", [["r", 2, 3], ["r", 1, 2]]],
        ["sl", "E", [":", ["r", 2, 3]]], ["sl", "E", [":", ["r", 1, 2]]], ["sl", "C", [["r", 1, 2], ["r", 1, 2]]]]
 
@@ -419,6 +434,8 @@ M22 = [["A", "A"], ["A", "B"], ["A", "D"], ["sl", "C", [["r", 1, 2], ["r", 2, 3]
 def gen_aexpr(rng, g, ty, d):
     r = rng
     if d <= 0 or r.random() < 0.3:
+        if r.random() < 0.35:
+            return r.choice({"m22": M22_R3, "v3": V3_R3, "v2": V2_R3}[ty])
         if ty == "m22":
             return r.choice(M22)
         if ty == "v3":
@@ -455,28 +472,32 @@ def fix_ranges(e):
 
 def gen_mat_model(rng):
     elems = [["idx2", n, i + 1, j + 1] for n, sh in MAT_DECL.items() if len(sh) == 2 for i in range(sh[0]) for j in range(sh[1])]
-    elems += [["idx", n, i + 1] for n in ("v", "w") for i in range(3)]
+    elems += [["idx", n, i + 1] for n in ("v", "w") for i in range(3)] + [["idx", "z", i + 1] for i in range(5)]
     g = FGen(rng, ["x1", "u1", "p1", "time"], extra_atoms=elems)
     eqs = []
     for _ in range(rng.randint(3, 5)):
         x = rng.random()
         d = rng.choice([0, 1, 1, 2])
         if x < 0.4:      # square matrices, whole or as a 2-D slice
-            lhs = rng.choice(M22)
+            lhs = rng.choice(M22 + M22_R3)
             eqs.append(["aeq", lhs, gen_aexpr(rng, g, "m22", d)])
         elif x < 0.6:
             lhs = rng.choice([["A", "v"], ["A", "w"], ["sl", "C", [":", rng.randint(1, 3)]], ["sl", "C", [rng.randint(1, 3), ":"]],
-                              ["sl", "E", [rng.randint(1, 2), ":"]]])
+                              ["sl", "E", [rng.randint(1, 2), ":"]]] + V3_R3 + V3_R3_ROW)
             eqs.append(["aeq", lhs, gen_aexpr(rng, g, "v3", d)])
         elif x < 0.8:
             lhs = rng.choice([["sl", "v", [["r", 1, 2]]], ["sl", "w", [["r", 2, 3]]], ["sl", "C", [["r", 2, 3], rng.randint(1, 3)]],
-                              ["sl", "E", [":", rng.randint(1, 3)]], ["sl", "A", [rng.randint(1, 2), ":"]], ["sl", "A", [":", rng.randint(1, 2)]]])
+                              ["sl", "E", [":", rng.randint(1, 3)]], ["sl", "A", [rng.randint(1, 2), ":"]], ["sl", "A", [":", rng.randint(1, 2)]]] + V2_R3 + V2_R3_ROW)
             eqs.append(["aeq", lhs, gen_aexpr(rng, g, "v2", d)])
         elif x < 0.9:
             eqs.append(["aeq", ["A", "E"], ["abin", rng.choice(["+", "-"]), ["ascal", g.real(1), ["A", "E"]], ["sl", "C", [["r", 1, 2], ":"]]]])
         else:
             eqs.append(["eq", rng.choice(elems + [["var", "x1"]]), g.real(2)])
-    ieqs = [["aeq", rng.choice(M22), gen_aexpr(rng, g, "m22", 1)]] if rng.random() < 0.5 else []
+    ieqs = []
+    if rng.random() < 0.6:
+        ty = rng.choice(["m22", "v3", "v2"])
+        lhs = rng.choice({"m22": M22 + M22_R3, "v3": V3_R3 + [["A", "v"]], "v2": V2_R3}[ty])
+        ieqs = [["aeq", lhs, gen_aexpr(rng, g, ty, 1)]]
     return {"kind": "model", "name": "M", "N": 3, "eqs": fix_ranges(eqs), "ieqs": fix_ranges(ieqs), "stream": "mat", "decl": "mat"}
 
 
@@ -567,7 +588,11 @@ def pe(e):
 
 
 def psub(x):
-    return ":" if x == ":" else ("%d:%d" % (x[1], x[2]) if isinstance(x, list) else str(x))
+    if x == ":":
+        return ":"
+    if isinstance(x, list):
+        return "%d:%d:%d" % (x[1], x[2], x[3]) if x[0] == "r3" else "%d:%d" % (x[1], x[2])
+    return str(x)
 
 
 def pa(e):
@@ -633,7 +658,7 @@ def pq(q, ind="  "):
     raise ValueError(t)
 
 
-MAT_DECL = {"A": (2, 2), "B": (2, 2), "D": (2, 2), "C": (3, 3), "E": (2, 3), "v": (3,), "w": (3,)}
+MAT_DECL = {"A": (2, 2), "B": (2, 2), "D": (2, 2), "C": (3, 3), "E": (2, 3), "v": (3,), "w": (3,), "z": (5,)}
 
 
 def model_text(m):
@@ -658,7 +683,7 @@ def model_text(m):
 
 SCALARS = ["x1", "x2", "x3", "u1", "p1", "k1", "time", "b1", "b2", "n"]
 VAR_ID = {n: i + 1 for i, n in enumerate(SCALARS)}
-ARR_ID = {"a": 20, "c": 21, "v": 45, "w": 46}
+ARR_ID = {"a": 20, "c": 21, "v": 45, "w": 46, "z": 47}
 FUN_VAR_ID = {"u": 31, "w": 32, "a": 33, "b": 34, "t": 35}
 MAT_ID = {"A": 40, "B": 41, "D": 42, "C": 43, "E": 44}
 
@@ -898,6 +923,8 @@ class Ev:
             for dim, sub in zip(base["shape"], e[2]):
                 if sub == ":":
                     sel.append(list(range(dim)))
+                elif isinstance(sub, list) and sub[0] == "r3":
+                    sel.append([i - 1 for i in mrange(sub[1], sub[2], sub[3])])   # element k is x[lo + k*st]
                 elif isinstance(sub, list):
                     sel.append(list(range(sub[1] - 1, sub[2])))
                 else:
@@ -1312,6 +1339,8 @@ def c_func(f):
 def c_sub(x):
     if x == ":":
         return "SubAll"
+    if isinstance(x, list) and x[0] == "r3":
+        return "(SubR3 %s %s %s)" % (core.cq_Z(x[1]), core.cq_Z(x[2]), core.cq_Z(x[3]))
     if isinstance(x, list):
         return "(SubR %s %s)" % (core.cq_Z(x[1]), core.cq_Z(x[2]))
     return "(SubI %s)" % core.cq_Z(x)
@@ -1398,7 +1427,7 @@ def encode_xcases(m, r):
                 parts.append("(%s, [%s])" % (x, "; ".join(obs)))
         ft = "; ".join("(%s, %s, %s)" % (core.cq_pos(f), cq_qc(a), cq_qc(v)) for f, a, v in ev.ftab)
         sc = "; ".join("(%s, %s)" % (core.cq_pos(VAR_ID[n]), cq_qc(p[n])) for n in SCALARS if n in p)
-        ar = "; ".join("(%s, [%s])" % (core.cq_pos(ARR_ID[n]), "; ".join(cq_qc(x) for x in p[n])) for n in ("v", "w") if n in p)
+        ar = "; ".join("(%s, [%s])" % (core.cq_pos(ARR_ID[n]), "; ".join(cq_qc(x) for x in p[n])) for n in ("v", "w", "z") if n in p)
         mats = "; ".join("(%s, [%s])" % (core.cq_pos(MAT_ID[n]), "; ".join("[%s]" % "; ".join(cq_qc(x) for x in row) for row in p[n]))
                          for n in MAT_ID if n in p)
         out.append("(gen_table, [%s], {| p_sc := [%s]; p_der := []; p_arr := [%s] |}, [%s], %s, true, [%s])"
@@ -1609,7 +1638,7 @@ def run(ctx):
     if f_tie is None or not f_tie.result():
         # fall back to the table of the theorems so that the correspondence can still run
         core.coq_run(ctx, "Gen", core.HEADER + "From PV Require Import Model.C11_residual Proofs.C11_residual.\n"
-                     "Definition gen_table := good_table.\n")
+                     "Definition gen_table := good_table.\nDefinition gen_if_seq := false.\n")
     pool.shutdown()
     # (b) correspondence
     t_coq = _t.time()
@@ -1638,7 +1667,7 @@ def run(ctx):
                                "From Coq Require Import ZArith QArith Qcanon.\nImport ListNotations.\n"
                                "From PV Require Import Model.C11_residual Model.C11_functions Model.C11_arrays Model.C11_cases.\n"
                                "From RunC11 Require Import Gen.\nOpen Scope Qc_scope.\n",
-                               "xcase", xenc, "check_xcase", shard=ctx.scaled(40, 120), timeout=1500)
+                               "xcase", xenc, "(check_xcase gen_if_seq)", shard=ctx.scaled(40, 120), timeout=1500)
     bad = f_bad.result()
     pool2.shutdown()
     ctx.oblige("correspondence:function-and-array-model-vs-casadi-generator", xbad == [],
